@@ -53,7 +53,7 @@ def behaviour(rng, i):
     kind = rng.choice(["minutely", "minutely", "hourly", "daily", "never"])
     P = PER[kind]
     prefix = rng.choice(["app", "app", "my.log", None])
-    suffix = rng.choice([None, None, "log", "txt"])
+    suffix = rng.choice([None, None, "log", "txt", "my.log"])
     if prefix is None and suffix is None and kind == "never":
         prefix = "app"
     maxf = rng.choice([0, 0, 1, 2, 3])
@@ -83,14 +83,31 @@ def behaviour(rng, i):
             now += rng.choice([0, 1, 86400 * 40])
         now = max(0, min(now, 2100000000))
         rot = bool(P) and now >= nd
+        old_nd = nd
         if rot:
             cur = now // P
             nd = (cur + 1) * P
-        if rng.random() < 0.25:
+        c = rng.random()
+        if c < 0.08 and P and rot and steps:
+            # a writer obtained in the previous period is still held by another thread while this period's first make_writer runs
+            prev_now = steps[-1]["now"]
+            steps.append({"op": "held", "now1": prev_now, "now": now, "ids": [1000 * (n + 1) + j for j in (1, 2, 3)], "rot_hint": rot})
+        elif c < 0.3:
             # racing MakeWriter users at this clock reading, under a random schedule of the appender's yield points
             k = rng.choice([2, 2, 3])
             ids = [1000 * (n + 1) + j for j in range(1, k + 1)]
-            steps.append({"op": "race", "now": now, "ids": ids, "schedule": [rng.randint(1, k) for _ in range(rng.choice([0, 4, 8, 12]))], "rot_hint": rot})
+            st = {"op": "race", "now": now, "ids": ids, "schedule": [rng.randint(1, k) for _ in range(rng.choice([0, 4, 8, 12]))], "rot_hint": rot}
+            if P and rot and rng.random() < 0.5:
+                if now // P > old_nd // P and rng.random() < 0.6:
+                    # a slow thread took its (due) clock reading in an earlier period, is overtaken after should_rollover by the
+                    # thread that rotates for `now`, and resumes afterwards: it must lose the rotation and change nothing
+                    st["ids"], st["nows"], st["schedule"] = ids[:2], [old_nd + rng.choice([0, 1]), now], [1] + [2] * 30 + [1] * 30
+                elif old_nd > 0:
+                    # some threads read the clock just before the boundary (not due): only the thread reading `now` rotates
+                    nows = [now] + [max(0, old_nd - rng.choice([1, 2, 30])) for _ in range(k - 1)]
+                    rng.shuffle(nows)
+                    st["nows"] = nows
+            steps.append(st)
         else:
             steps.append({"op": "write", "iface": rng.choice(["mut", "mw"]), "now": now, "id": n + 1, "rot_hint": rot})
     return {"src": "random-c16", "id": i, "kind": kind, "prefix": prefix, "suffix": suffix, "max_files": maxf, "t0": t0, "steps": steps}
@@ -126,7 +143,10 @@ def to_trace(behs, lines):
                 else:
                     ids.append(-1)
             files.append({"k": k, "ids": ids})
-        out.append({"ev": "op", "op": x["op"], "now": x["now"], "id": x.get("id", 0), "ids": x.get("ids", []), "write_ok": x["write_ok"], "names_ok": names_ok, "files": files})
+        rec = {"ev": "op", "op": x["op"], "now": x["now"], "id": x.get("id", 0), "ids": x.get("ids", []), "write_ok": x["write_ok"], "names_ok": names_ok, "files": files}
+        if x.get("nows"):
+            rec["nows"] = x["nows"]
+        out.append(rec)
     return out
 
 
